@@ -9,6 +9,7 @@
 (* undefined name; plus definitions whose own name lacks the @.            *)
 (***************************************************************************)
 EXTENDS JasmMacro, SequencesExt
+MP == INSTANCE JasmMacroPass WITH FinalScan <- TRUE, orig <- 0, defs <- 0, doc <- 0, rm <- 0, i <- 0, outcome <- 0
 
 S(x) == DStr(x)
 L(xs) == DList(xs)
@@ -49,7 +50,7 @@ Docs == { [pos |-> b.pos, ref |-> b.ref, pattern |-> b.pattern,
            inlined |-> InlineRef(b.pattern, b.defs),
            must_fail |-> MustFail(b.pattern, b.defs),
            names |-> SetToSeq(Unresolved(b.pattern, b.defs) \cup BadMacroNames(b.defs)),
-           tag |-> ""]
+           tag |-> "", model_outcome |-> MP!RunModel(b.pattern, b.defs).outcome]
           : b \in Base, inFile \in BOOLEAN }
 Universe == [docs |-> SetToSeq(Docs)]
 =============================================================================
